@@ -7,6 +7,7 @@ import (
 	"math/rand"
 	"path/filepath"
 	"strconv"
+	"strings"
 	"sync"
 	"time"
 
@@ -583,8 +584,8 @@ func (p *partition) newSubscribeLoop(ctx context.Context, groupID string, sub *s
 					Value:        msgValue,
 					Timestamp:    timestamp,
 					Headers:      headers,
-					Subject:      string(headers["subject"]),
-					ReplySubject: string(headers["reply"]),
+					Subject:      protoString(headers["subject"]),
+					ReplySubject: protoString(headers["reply"]),
 				}
 			)
 			select {
@@ -1535,6 +1536,7 @@ func (p *partition) sendAck(ack *client.Ack) {
 		return
 	}
 	ack.CommitTimestamp = timestamp()
+	ack.MsgSubject = protoString([]byte(ack.MsgSubject))
 	data, err := proto.MarshalAck(ack)
 	if err != nil {
 		// The ack carries strings taken from the wire (e.g. a NATS subject
@@ -1991,6 +1993,14 @@ func natsToProtoMessage(msg *nats.Msg, leaderEpoch uint64) *commitlog.Message {
 	m.Headers["subject"] = []byte(msg.Subject)
 	m.Headers["reply"] = []byte(msg.Reply)
 	return m
+}
+
+// protoString returns the bytes of a NATS subject as a string that can be
+// carried in a protobuf string field. NATS subjects are bytes and need not be
+// valid UTF-8, which protobuf refuses to marshal: invalid sequences are
+// replaced by U+FFFD. The verbatim subject stays in the message's headers.
+func protoString(b []byte) string {
+	return strings.ToValidUTF8(string(b), "\uFFFD")
 }
 
 // computeTick calculates a generic amount of time a loop should sleep before
